@@ -182,24 +182,44 @@ func judge(in []vaxis.Character, ids []int, lines []line, width int, stepsOK boo
 		k += n
 		i = j
 	}
-	// 5. hard breaks
+	// 5. hard breaks: every one ends the current line, so two graphemes with
+	// h breaks between them are at least h lines apart, h leading breaks put
+	// the first grapheme on line h or later, and h trailing breaks end h lines
 	k = 0
 	prevNonSpaceLine := -1
-	sawBreak := false
+	breaks := 0
 	for _, c := range in {
 		if strings.ContainsAny(c.Grapheme, "\n\r") {
-			sawBreak = true
+			breaks++
 			continue
 		}
 		if isSpaceG(c.Grapheme) {
 			continue
 		}
-		if sawBreak && prevNonSpaceLine >= 0 && lineOf[k] == prevNonSpaceLine {
-			return "hard-break:shared-line", "two graphemes separated by a hard line break share a line"
+		if breaks > 0 {
+			if prevNonSpaceLine >= 0 && lineOf[k] == prevNonSpaceLine {
+				return "hard-break:shared-line", "two graphemes separated by a hard line break share a line"
+			}
+			from := prevNonSpaceLine
+			if from < 0 {
+				from = 0
+			}
+			if lineOf[k]-from < breaks {
+				return "hard-break:line-not-ended", fmt.Sprintf("%d hard line breaks precede %q but it is only %d line(s) further down: a break did not end its line", breaks, c.Grapheme, lineOf[k]-from)
+			}
 		}
-		sawBreak = false
+		breaks = 0
 		prevNonSpaceLine = lineOf[k]
 		k++
+	}
+	if breaks > 0 {
+		need := breaks
+		if prevNonSpaceLine >= 0 {
+			need = prevNonSpaceLine + breaks
+		}
+		if len(lines) < need {
+			return "hard-break:line-not-ended", fmt.Sprintf("the text ends with %d hard line breaks but only %d lines were emitted (last grapheme on line %d)", breaks, len(lines), prevNonSpaceLine)
+		}
 	}
 	return "", ""
 }
